@@ -499,11 +499,41 @@ static std::vector<Ops<XQ> > box_ops(Rng& r) {
 }
 
 // ------------------------------------------------------------------------------ standalone certificate lines
+// generator systems with several rays: certificates that tie on the leading components
+static Generator rnd_dir(Rng& r, dimension_type n, bool as_line) {
+  for (;;) {
+    Linear_Expression e = dimfix(n); bool nz = false;
+    static const long cv[] = {-1, 0, 0, 0, 1, 1, 2};
+    for (dimension_type i = 0; i < n; ++i) { long c = cv[r.below(7)]; if (c) nz = true; e += Coefficient(c) * Variable(i); }
+    if (nz) return as_line ? line(e) : ray(e);
+  }
+}
+static Generator_System rnd_rich_gs(Rng& r, dimension_type n) {
+  Generator_System gs;
+  unsigned np = r.chance(1, 2) ? (unsigned)n + 1 : 1 + r.below(2);      // often full-dimensional
+  for (unsigned k = 0; k < np; ++k) {
+    Linear_Expression e = dimfix(n);
+    for (dimension_type i = 0; i < n; ++i) e += Coefficient(r.range(-2, 2)) * Variable(i);
+    gs.insert(point(e));
+  }
+  unsigned nr = r.below(4);
+  for (unsigned k = 0; k < nr; ++k) gs.insert(rnd_dir(r, n, false));
+  if (r.chance(1, 8)) gs.insert(rnd_dir(r, n, true));
+  return gs;
+}
 template <class PH> static void cert_lines(long id, Rng& r, dimension_type n) {
   try {
-    PH p = Tr<PH>::from_gs(rnd_small_gs(r, n, 2), n);
-    PH q = Tr<PH>::from_gs(rnd_small_gs(r, n, 2), n);
+    bool rich = r.chance(3, 5);
+    PH p = Tr<PH>::from_gs(rich ? rnd_rich_gs(r, n) : rnd_small_gs(r, n, 2), n);
+    PH q = Tr<PH>::from_gs(rich ? rnd_rich_gs(r, n) : rnd_small_gs(r, n, 2), n);
     bool incl = r.chance(2, 3);
+    if (rich && r.chance(1, 2)) {
+      // q = p plus one or two generators: often ties on dimension and number of constraints
+      Generator_System g2; { PH pc(p); const Generator_System& pg = pc.generators(); for (Generator_System::const_iterator i = pg.begin(); i != pg.end(); ++i) g2.insert(*i); }
+      unsigned k = 1 + r.below(2);
+      for (unsigned t = 0; t < k; ++t) { if (r.chance(1, 2)) g2.insert(rnd_dir(r, n, false)); else { Linear_Expression e = dimfix(n); for (dimension_type i = 0; i < n; ++i) e += Coefficient(r.range(-3, 3)) * Variable(i); g2.insert(point(e)); } }
+      q = Tr<PH>::from_gs(g2, n); incl = true;
+    }
     if (incl) q.upper_bound_assign(p);
     if (r.chance(1, 3)) { Constraint_System cs = rnd_cs(r, n, Tr<PH>::nnc, 2, false); PH q1(q); q1.add_constraints(cs); if (!q1.is_empty() && (!incl || q1.contains(p))) q = q1; }
     OS o; o << "cert " << id << " " << Tr<PH>::tag() << " " << n << " " << (incl ? 1 : 0); jl(o.str());
@@ -870,7 +900,7 @@ int main(int argc, char** argv) {
         case 4: { std::vector<Ops<XQ> > v = box_ops(r); run_chain(h, r, n, v[r.below((unsigned)v.size())]); break; }
         case 5: { std::vector<Ops<BD> > v = shape_ops<BD, Checked_Number<double, WRD_Extended_Number_Policy> >(r, true); add_bds_h79(v); run_chain(h, r, n, v[r.below((unsigned)v.size())]); break; }
         case 6: { if (n == 3 && !r.chance(1, 4)) n = 2; std::vector<Ops<OD> > v = shape_ops<OD, Checked_Number<double, WRD_Extended_Number_Policy> >(r, false); run_chain(h, r, n, v[r.below((unsigned)v.size())]); break; }
-        case 7: { for (int k = 0; k < 6; ++k) { if (r.chance(1, 2)) cert_lines<C_Polyhedron>(h * 10 + k, r, n); else cert_lines<NNC_Polyhedron>(h * 10 + k, r, n); } grid_cert_lines(h, r, n); break; }
+        case 7: { if (n == 1 && r.chance(2, 3)) n = 2 + r.below(2); for (int k = 0; k < 16; ++k) { if (r.chance(1, 2)) cert_lines<C_Polyhedron>(h * 10 + k, r, n); else cert_lines<NNC_Polyhedron>(h * 10 + k, r, n); } grid_cert_lines(h, r, n); break; }
         case 8: run_powerset_chain<C_Polyhedron>(h, r, std::min<dimension_type>(n, 2)); break;
         case 9: run_powerset_chain<NNC_Polyhedron>(h, r, std::min<dimension_type>(n, 2)); break;
         case 10: run_grid_chain(h, r, n); break;
